@@ -1,7 +1,7 @@
 (** extraction of the C09 model (sign tables regenerated from the source + specs) *)
 Require Import FastZ.
-From Dashu Require Import Base.Prelude Base.Words Int.BitsSpec Int.BitsWords Int.BitsKernels.
-From DashuGen Require Import SignTables.
+From Dashu Require Import Base.Prelude Base.Words Int.BitsSpec Int.BitsWords Int.BitsKernels Int.BitsForms.
+From DashuGen Require Import SignTables BitsFormsGen.
 Extraction "model.ml"
   signed sign_of
   ibig_bitand_gen ibig_bitor_gen ibig_bitxor_gen ubig_ibig_bitand_gen ibig_ubig_bitand_gen
@@ -15,4 +15,8 @@ Extraction "model.ml"
   repr_shl repr_shl_ref repr_shr repr_shr_ref ibig_shr_asis ibig_shr_ref_asis ibig_shl_asis are_low_bits_nonzero
   repr_ones repr_bit ibig_bit repr_trailing_zeros repr_set_bit repr_clear_bit repr_clear_high_bits repr_split_bits
   repr_trailing_ones ibig_trailing_ones
-  repr_bit_len repr_count_ones repr_count_zeros repr_is_power_of_two repr_next_power_of_two.
+  repr_bit_len repr_count_ones repr_count_zeros repr_is_power_of_two repr_next_power_of_two
+  zop ubig_op ibig_op ubig_prim_asis ibig_prim_asis ubig_prim_assign_asis ibig_prim_assign_asis
+  ubig_assign_asis ibig_assign_asis ubig_shl_form ubig_shr_form ibig_shl_form ibig_shr_form brepr_layout
+  gen_bitand_vv gen_bitand_vr gen_bitand_rv gen_bitand_rr gen_bitor_vv gen_bitor_vr gen_bitor_rv gen_bitor_rr
+  gen_bitxor_vv gen_bitxor_vr gen_bitxor_rv gen_bitxor_rr.
